@@ -78,7 +78,10 @@ StructArity(name) == IF name = "Foo" THEN 2 ELSE 1
 Preds == {"small", "nonempty"}
 \* [ok, b]: the predicate may raise (comparison of unlike kinds, len of a number)
 ApplyPred(p, v) ==
-    CASE p = "small" -> IF IsReal(v) THEN [ok |-> TRUE, b |-> NumLt(v, IntV(3))] ELSE [ok |-> FALSE, b |-> FALSE]
+    CASE p = "small" -> IF IsReal(v) THEN [ok |-> TRUE, b |-> NumLt(v, IntV(3))]
+                        \* complex numbers are ordered as (re, im) pairs; the model's complex values are n/d + 2i
+                        ELSE IF v.t = "complex" THEN [ok |-> TRUE, b |-> v.n < 3 * v.d]
+                        ELSE [ok |-> FALSE, b |-> FALSE]
       [] p = "nonempty" -> IF v.t \in {"str", "list", "vec", "bytes", "stream"} THEN [ok |-> TRUE, b |-> Len(v.v) > 0]
                            ELSE IF v.t = "dict" THEN [ok |-> TRUE, b |-> Len(v.ks) > 0]
                            ELSE [ok |-> FALSE, b |-> FALSE]
